@@ -5,6 +5,7 @@
 mod probe;
 mod scen_build;
 mod scen_cfg;
+mod scen_edit;
 mod scen_gate;
 mod scen_hist;
 mod scen_par;
@@ -34,12 +35,13 @@ fn run_case(idx: u64, c: &CaseDesc, w: &mut Writer) {
     let mut end = Rec::new("end").n("idx", idx);
     let t0 = util::thread_cpu_ns();
     if let Some(input) = &input {
-        let kind = c.scenario.split(':').next().unwrap_or("");
+        let kind = c.scenario.split(|ch| ch == ':' || ch == ';').next().unwrap_or("");
         match kind {
             "rt" => scen_rt::run(input, &c.scenario, &mut end),
             "gate" => scen_gate::run(input, &mut end),
             "cfg" => scen_cfg::run(input, &mut end),
             "hist" => scen_hist::run(input, &mut end),
+            "edit" => scen_edit::run(input, &c.scenario, &mut end),
             "par" => scen_par::run(input, &c.scenario, &mut end),
             "replace" => scen_replace::run(input, &mut end),
             "build" => scen_build::run(input, &mut end),
